@@ -109,6 +109,17 @@ CHECKS = {
             'private copies. The binding self-test (corrupted digest, dropped event, changed result must be rejected) runs in '
             'every check.',
             'trace validation by TLC against a TLA+ purity specification + TLC-generated plane histories replayed into lentil'),
+    'C20': ('model_checking',
+            'Geometry.tla defines pad/crop (2-D and cubes), sub-array, bounding box, bounding slice with pad and clipping, slice '
+            'offset, rebin, centroid (exact rational), mesh, the half-turn / mirror / translation index maps of drawn shapes and '
+            'hexagonal rings on the single centre convention of Grid.tla. Every helper is called on seeded integer data of all small '
+            'shapes (mixed parities, grow/shrink, non-square cubes, refused windows); each call and its result is an event that TLC '
+            'validates against the specification, checking origin preservation, pad-then-crop identity, rebin sums, slice/offset '
+            'consistency and ring counts on the event data. Verdicts are total; a corrupted event must be rejected (self-test).',
+            'DESIGN.md 5 C20',
+            'Trusted: the recorder in drivers/c20.py. Antialiased shape values (floats) are a numeric leaf checked to 1e-9 by the '
+            'recorder; samples exactly on a hexagon edge are ties (exempt); equal-area bound 6R+6.',
+            'trace validation by TLC against index-map / pixel-set semantics in TLA+'),
 }
 
 NOT_YET = 'check not built yet in this round (planned, see DESIGN.md section 5)'
